@@ -287,6 +287,10 @@ def check_floyd(ctx: Ctx):
             ctx.ob("C11-O5", "R1 STATUS-GUARD", f, "UNBOUNDED only under a negative diagonal entry, after the triple loop", atom_of("dist[i][i] < 0") in at and cfg.stmt_node_containing(t).loop.loop.loop.id in cfg.backward(s.node), "", node=s.call)
     diag = [x for x in own_nodes(f.node) if isinstance(x, ast.Assign) and ast.unparse(x.targets[0]) == "dist[i][i]"]
     ctx.ob("C11-O5", "R21 search discipline", f, "diagonal initialised to 0 before edges are read", len(diag) == 1 and ast.unparse(diag[0].value) in ("0.0", "0"), "", node=f.node)
+    if len(diag) == 1:
+        before = cfg.backward(cfg.node_of(diag[0]))
+        late = [x for x in edge_stores if cfg.node_of(x).id in before]
+        ctx.ob("C11-O5", "R2 ORDER", f, "no edge is entered into the table before the diagonal is zeroed", not late, f"`{ast.unparse(late[0]) if late else ''}` runs before `dist[i][i] = 0`: the zero overwrites a negative self loop, which is a negative cycle the detection pass then never sees", node=diag[0])
 
 
 def check_grid(ctx: Ctx):
@@ -460,6 +464,16 @@ def _v_fw_skip_self_loops(tree):
     M.replace_stmt(g, lambda s: isinstance(s, ast.Assign) and M.src_is(s.targets[0], "dist[u][v]") and M.src_has(s.value, "min("), lambda s: M.stmts("if u == v:\n    continue") + [s])
 
 
+def _v_fw_diag_after_edges(tree):
+    g = M.find_func(tree, "floyd_warshall")
+    di = [i for i, s in enumerate(g.body) if isinstance(s, ast.For) and M.src_has(s, "dist[i][i] = 0")]
+    ed = [i for i, s in enumerate(g.body) if isinstance(s, ast.For) and M.src_has(s, "min(dist[u][v]")]
+    if not di or not ed or di[0] > ed[0]:
+        raise M.Skip("diagonal / edge loops not found")
+    d = g.body.pop(di[0])
+    g.body.insert(ed[0], d)
+
+
 def _v_dj_pop_budget(tree):
     g = M.find_func(tree, "dijkstra_edges")
     w = [n for n in ast.walk(g) if isinstance(n, ast.While) and M.src_is(n.test, "heap")]
@@ -512,5 +526,6 @@ VARIANTS = [
     M.Variant("floyd_warshall skips self loops when reading the edges (seed C12-E)", FW, _v_fw_skip_self_loops, "C11-O5"),
     M.Variant("dijkstra_edges stops after n pops, stale entries included (seed C11-G)", DJ, _v_dj_pop_budget, "C11-O1"),
     M.Variant("bellman_ford answers target == start before the detection pass (seed C11-H)", BF, _v_bf_trivial_query_shortcut, "C11-O4"),
+    M.Variant("floyd_warshall zeroes the diagonal after reading the edges (seed C11-I)", FW, _v_fw_diag_after_edges, "C11-O5"),
     M.Variant("twin: floyd_warshall i/j loops swapped", FW, _t_fw_swap_ij, None),
 ]
